@@ -48,6 +48,24 @@ def cases(tier, seed):
                 if y == 1 and m == 1:
                     continue
                 pts += [(t - 1, 0), (t, 0), (t + 1, 0)]
+    # structural boundaries of the chunked algorithm combined with offsets of both signs:
+    # the sign switch at t = 0, every 400/100/4-year boundary, every year boundary; t and t + offset on either side
+    offs = [0, 1, -1, 59, -59, 3600, -3600, 19800, -34200, 86399, -86399, 43200, -43200]
+    for y in range(1, 10000):
+        century = (y % 100 == 0)
+        if not (century or y % 4 == 0 or y in (1970, 1969, 1971, 1601, 2001) or (tier == "thorough") or y % 97 == seed % 97):
+            continue
+        if y == 1:
+            continue
+        t0 = (_dt.date(y, 1, 1).toordinal() - epoch) * 86400
+        for o in (offs if (y % 400 == 0 or y in (1970, 1600, 2000)) else offs[:7] if century else offs[1:5]):
+            for dt_ in (-1, 0, 1):
+                for t in (t0 + dt_, t0 - o + dt_):
+                    if (2 - epoch + 2) * 86400 < t + o < (3652059 - epoch - 2) * 86400 and (2 - epoch + 2) * 86400 < t:
+                        pts.append((t, o))
+    for o in offs:
+        for t in (-1, 0, 1, -o, -o - 1, -o + 1):
+            pts.append((t, o))
     lo, hi = (2 - epoch + 1) * 86400, (3652059 - epoch - 1) * 86400
     for _ in range(20000 if tier == "quick" else 200000):
         pts.append((rnd.randrange(lo, hi), rnd.randrange(-86399, 86400)))
